@@ -8,6 +8,7 @@ EXTENDS Naturals, FiniteSets, Sequences, TLC
 
 CONSTANTS Actors, Vs, MaxSeq, QLen, Chunk, MaxInflight, SeenMax, Keep,
           FixS3,        \* FALSE: drop-oldest evicts the cache entry keyed by the INCOMING changeset's actor (code as found)
+          ApplyMayFail, \* TRUE: a batch may end without booking anything (apply error, table unknown to the node): known finding S15
           FixEmptySeen  \* FALSE: an empty changeset is suppressed whenever any chunk of its version is cached (code as found)
 
 VARIABLES queue,     \* Seq of changesets
@@ -125,7 +126,16 @@ Done(i) ==
     /\ inflight' = [j \in 1..(Len(inflight) - 1) |-> IF j < i THEN inflight[j] ELSE inflight[j + 1]]
     /\ UNCHANGED <<queue, bufCost, seen, known, part>>
 
+(* process_multiple_changes ends without booking the batch (error, or changes it cannot apply): the loop only logs it, *)
+(* the cache entries of the batch stay                                                                              *)
+Fail(i) ==
+    /\ ApplyMayFail /\ ~SpawnEnabled
+    /\ i \in 1..Len(inflight) /\ ~AllHeld(inflight[i])
+    /\ inflight' = [j \in 1..(Len(inflight) - 1) |-> IF j < i THEN inflight[j] ELSE inflight[j + 1]]
+    /\ UNCHANGED <<queue, bufCost, seen, known, part>>
+
 Next == \/ \E c \in Changes : Recv(c) \/ RecvLate(c)
+        \/ \E i \in 1..MaxInflight : Fail(i)
         \/ Spawn \/ Tick
         \/ \E i \in 1..MaxInflight : Commit(i) \/ Done(i)
 Spec == Init /\ [][Next]_vars
